@@ -342,11 +342,16 @@ func errClass(msg string) string {
 		}
 		return msg
 	}
-	if i := strings.Index(msg, ":"); i > 0 && i < 60 {
-		msg = msg[:i]
+	// "allowed=false: failed to process pod: invalid prometheus scrape configuration: port ..." -> keep the
+	// first two segments of the webhook's message, without concrete values
+	msg = strings.TrimPrefix(msg, "allowed=false: ")
+	seg := strings.Split(msg, ":")
+	if len(seg) > 2 {
+		seg = seg[:2]
 	}
-	if len(msg) > 60 {
-		msg = msg[:60]
+	msg = strings.TrimSpace(strings.Join(seg, ":"))
+	if len(msg) > 90 {
+		msg = msg[:90]
 	}
 	return msg
 }
